@@ -465,6 +465,19 @@ pub mod vx_export {
         Ok(verify_nonmembership_for_tests_only::<TC>(root_hash, &proof).is_ok())
     }
 
+    /// C05 (known finding D15): a membership "proof" with NO sibling proofs whose hash value is the root node's value verifies for ANY
+    /// label - the label of a sibling-less proof is bound by nothing (the root hash commits to the root's value, not to a label).
+    /// Returns Ok(true) iff verify_membership accepts (absent 256-bit label, root value, []) against the real root hash.
+    pub async fn c05_zero_sibling_membership<TC: Configuration>() -> Result<bool, AkdError> {
+        let db = StorageManager::new_no_cache(AsyncInMemoryDatabase::new());
+        let mut azks = Azks::new::<TC, _>(&db).await?;
+        azks.batch_insert_nodes::<TC, _>(&db, vec![el(0x00, 1), el(0x20, 2), el(0x80, 3)], InsertMode::Directory, AzksParallelismConfig::disabled()).await?;
+        let root_hash = azks.get_root_hash::<TC, _>(&db).await?;
+        let root = TreeNode::get_from_storage(&db, &NodeKey(NodeLabel::root()), azks.get_latest_epoch()).await?;
+        let forged = crate::MembershipProof { label: lbl(0x40), hash_val: root.hash, sibling_proofs: vec![] };
+        Ok(crate::client::verify_membership_for_tests_only::<TC>(root_hash, &forged).is_ok())
+    }
+
     /// C15 (all-states read): database holds (user, epoch e_db, "A"), the transaction holds (user, epoch e_t, "B") - the same epoch is a
     /// pending REWRITE of a committed record. Returns the (epoch, value) lists of get_user_data inside the transaction and after commit (sorted).
     pub async fn c15_user_data(e_db: u64, e_t: u64) -> Result<(Vec<(u64, Vec<u8>)>, Vec<(u64, Vec<u8>)>), AkdError> {
